@@ -14,3 +14,4 @@ import JaxVerif.Properties.C01
 #print axioms JV.C01_source_check_dims
 #print axioms JV.C01_source_variadic
 #print axioms JV.C01_source_variadic_first
+#print axioms JV.C01_source_stages
